@@ -39,6 +39,8 @@ func main() {
 		os.Exit(cmdReplay(os.Args[2:]))
 	case "dump":
 		os.Exit(cmdDump(os.Args[2:]))
+	case "paths":
+		os.Exit(cmdPaths(os.Args[2:]))
 	case "list":
 		var ids []string
 		for id := range registry {
@@ -220,6 +222,39 @@ func cmdDump(args []string) int {
 					fmt.Printf("            %s\n", in.String())
 				}
 			}
+		}
+	}
+	return 0
+}
+
+func cmdPaths(args []string) int {
+	if len(args) < 3 {
+		usage()
+	}
+	p, err := Load(envOr("REPO_DIR", "/repo"), "", "")
+	if err != nil {
+		fmt.Println(err)
+		return 2
+	}
+	var fn *ssa.Function
+	if args[1] == "-" {
+		fn = p.Func(args[0], args[2])
+	} else {
+		fn = p.Method(args[0], args[1], args[2])
+	}
+	if fn == nil {
+		fmt.Println("not found")
+		return 2
+	}
+	fl := NewFlow(p, fn)
+	paths, err := enumPaths(fl, 500)
+	if err != nil {
+		fmt.Println("error:", err)
+	}
+	for i, d := range paths {
+		fmt.Printf("path %d: result=%s stores=%v\n", i, d.Result, d.Stores)
+		for _, l := range d.Lits {
+			fmt.Printf("    %v  %s\n", l.Val, l.Atom)
 		}
 	}
 	return 0
